@@ -1298,7 +1298,7 @@ mon_stubs! {
     fn c08_recorder_barrier_protocol() { recorder_direct(0, 2, true) }
 }
 
-// @cell props=C08,C02 tier=thorough kind=core timeout=2400 mem=28 cls=K
+// @cell props=C08,C02 tier=quick kind=core timeout=2400 mem=28 cls=K
 // @desc same with the by-value/slot path and the inputs-only path (symbolic choice)
 mon_stubs! {
     #[kani::unwind(6)]
